@@ -513,6 +513,8 @@ class OnlineVarianceMetricAdapter(Adapter):
         transition.system.metric = PositiveDiagonalMatrix(var_est).inv
         # Resample momentum to account for altered distribution due to new metric
         for chain_state, rng in zip(chain_states, rngs, strict=True):
+            # Reassign position to clear any cached values computed with previous metric
+            chain_state.pos = chain_state.pos
             chain_state.mom = transition.system.sample_momentum(chain_state, rng)
 
 
@@ -645,4 +647,6 @@ class OnlineCovarianceMetricAdapter(Adapter):
         transition.system.metric = DensePositiveDefiniteMatrix(covar_est).inv
         # Resample momentum to account for altered distribution due to new metric
         for chain_state, rng in zip(chain_states, rngs, strict=True):
+            # Reassign position to clear any cached values computed with previous metric
+            chain_state.pos = chain_state.pos
             chain_state.mom = transition.system.sample_momentum(chain_state, rng)
